@@ -21,11 +21,11 @@
   -- [V] a filled triangle covers every integer point strictly inside the mathematical triangle (`InteriorCovered`): carried by correspondence + oracle only
   -- [V] every covered point is inside the closed triangle or within Euclidean distance 1 of an edge segment (`CoveredWithinOnePixel`): carried by correspondence + oracle only
   -- [V] two triangles sharing an edge leave no gap (`MeshGapFree`): carried by correspondence + oracle only
-  -- [V] the pixels of the shared edge's line are contained in both point sets (the structural half, same `Line` in both rasterisations, is `shared_edge_same_pixels`): carried by correspondence + oracle only
   -- [V] a one-pixel outline is the union of its three edge lines (`OutlineIsEdgeLines`; the join code for stroke width 1 is a model parameter, see EG/Model/Triangle.lean): carried by correspondence + oracle only
 -/
 import EG.Lemmas.TrianglePoints
 import EG.Lemmas.TriangleTranslate
+import EG.Lemmas.TriangleSpan
 namespace EG.C19
 open EG EG.Triangle
 
@@ -80,6 +80,29 @@ theorem triangle_points_closed_form (t : Triangle) :
     t.points = (rowsSpec t.span t.boundingBox.tl.y t.boundingBox.rowsEnd).take t.pointsBudget :=
   points_eq_take t
 
+/-- **`points()` in closed form, for every triangle whose bounding box is within the `i32` range**:
+the rows of the bounding box from top to bottom, each contributing its span from left to right. No
+row is empty (the line `p1 p3` passes through every row), so the early `None` of the non-fused
+iterators never fires, and the step budget of the model's `toList` is never exhausted. -/
+theorem triangle_points_rows (t : Triangle) (h : t.boundingBox.InRange) :
+    t.points = (rowList t).flatMap (fun y => (t.span y).points) :=
+  points_eq_rows t h
+
+example : (⟨⟨0, 0⟩, ⟨5, 1⟩, ⟨4, 6⟩⟩ : Triangle).boundingBox.InRange := by decide
+
+/-- **`points()` is the per-row hull of the Bresenham edge pixels**: `p` is covered iff its row
+contains a pixel of one of the edge lines in use (`p1 p2`, `p1 p3`, `p2 p3` of the sorted triangle;
+only `p1 p3` when the area is zero) at or left of `p`, and one at or right of `p`. -/
+theorem triangle_points_hull (t : Triangle) (h : t.boundingBox.InRange) (p : Pt) :
+    p ∈ t.points ↔
+      ∃ q1 q2, q1 ∈ rowPix t p.y ∧ q2 ∈ rowPix t p.y ∧ q1.x ≤ p.x ∧ p.x ≤ q2.x :=
+  mem_points_iff_between t h p
+
+/-- No point is yielded twice; the order is row-major. -/
+theorem triangle_points_row_major (t : Triangle) (h : t.boundingBox.InRange) :
+    t.points.Pairwise Pt.rowMajorLt ∧ t.points.Nodup :=
+  ⟨points_rowMajor t h, points_nodup t h⟩
+
 /-! ## Two triangles sharing an edge -/
 
 /-- **Both triangles rasterise a shared edge as the same `Line`**: whenever `u`, `v` are two
@@ -100,6 +123,34 @@ theorem shared_edge_same_pixels (t1 t2 : Triangle) (u v w1 w2 : Pt)
 example : (⟨⟨0, 0⟩, ⟨4, 6⟩, ⟨5, 1⟩⟩ : Triangle) ∈ orders ⟨⟨0, 0⟩, ⟨5, 1⟩, ⟨4, 6⟩⟩ ∧
     (⟨⟨0, 0⟩, ⟨4, 6⟩, ⟨-3, 4⟩⟩ : Triangle) ∈ orders ⟨⟨0, 0⟩, ⟨4, 6⟩, ⟨-3, 4⟩⟩ ∧
     (⟨⟨0, 0⟩, ⟨5, 1⟩, ⟨4, 6⟩⟩ : Triangle).areaDoubled ≠ 0 := by decide
+
+/-- **Two triangles sharing an edge have the same pixels along that edge**: every pixel of the
+line between the shared vertices `u`, `v` (rasterised from the `(y, x)`-smaller to the larger end
+point, `sortedLine u v`) is a point of both triangles (non-zero areas, bounding boxes within the
+`i32` range). -/
+theorem shared_edge_pixels_in_both (t1 t2 : Triangle) (u v w1 w2 p : Pt)
+    (h1 : (⟨u, v, w1⟩ : Triangle) ∈ orders t1) (h2 : (⟨u, v, w2⟩ : Triangle) ∈ orders t2)
+    (a1 : t1.areaDoubled ≠ 0) (a2 : t2.areaDoubled ≠ 0)
+    (r1 : t1.boundingBox.InRange) (r2 : t2.boundingBox.InRange)
+    (hp : p ∈ Line.points (sortedLine u v)) : p ∈ t1.points ∧ p ∈ t2.points := by
+  refine ⟨edge_pixel_mem_points t1 r1 ?_ hp, edge_pixel_mem_points t2 r2 ?_ hp⟩
+  · rw [usedLines_of_nonzero a1]; exact sortedLine_mem_edgeLines h1
+  · rw [usedLines_of_nonzero a2]; exact sortedLine_mem_edgeLines h2
+
+example : (⟨⟨0, 0⟩, ⟨4, 6⟩, ⟨5, 1⟩⟩ : Triangle) ∈ orders ⟨⟨0, 0⟩, ⟨5, 1⟩, ⟨4, 6⟩⟩ ∧
+    (⟨⟨0, 0⟩, ⟨4, 6⟩, ⟨-3, 4⟩⟩ : Triangle) ∈ orders ⟨⟨0, 0⟩, ⟨4, 6⟩, ⟨-3, 4⟩⟩ ∧
+    (⟨⟨0, 0⟩, ⟨5, 1⟩, ⟨4, 6⟩⟩ : Triangle).areaDoubled ≠ 0 ∧
+    (⟨⟨0, 0⟩, ⟨4, 6⟩, ⟨-3, 4⟩⟩ : Triangle).areaDoubled ≠ 0 ∧
+    (⟨⟨0, 0⟩, ⟨5, 1⟩, ⟨4, 6⟩⟩ : Triangle).boundingBox.InRange ∧
+    (⟨⟨0, 0⟩, ⟨4, 6⟩, ⟨-3, 4⟩⟩ : Triangle).boundingBox.InRange ∧
+    (⟨2, 3⟩ : Pt) ∈ Line.points (sortedLine ⟨0, 0⟩ ⟨4, 6⟩) := by decide
+
+/-- Every pixel of each of the three edge lines is a point of the filled triangle. -/
+theorem edge_lines_covered (t : Triangle) (h : t.boundingBox.InRange) (a : t.areaDoubled ≠ 0)
+    (l : Line) (hl : l ∈ t.edgeLines) (p : Pt) (hp : p ∈ Line.points l) : p ∈ t.points :=
+  edge_pixel_mem_points t h (by rw [usedLines_of_nonzero a]; exact hl) hp
+
+example : (⟨⟨0, 0⟩, ⟨5, 1⟩⟩ : Line) ∈ (⟨⟨0, 0⟩, ⟨5, 1⟩, ⟨4, 6⟩⟩ : Triangle).edgeLines := by decide
 
 /-- The shared line does not depend on the order in which the two end points are named. -/
 theorem shared_edge_line_symmetric (u v : Pt) : sortedLine u v = sortedLine v u :=
@@ -172,11 +223,6 @@ def MeshGapFree : Prop := ∀ (a b c d p : Pt),
   ((0 < cross a c b ∧ cross a c d < 0) ∨ (cross a c b < 0 ∧ 0 < cross a c d)) →
   (StrictlyInside ⟨a, b, c⟩ p ∨ StrictlyInside ⟨a, c, d⟩ p ∨ OnOpenSegment a c p) →
   p ∈ (Triangle.points ⟨a, b, c⟩) ∨ p ∈ (Triangle.points ⟨a, c, d⟩)
-
-/-- [V] The pixels of the shared edge's line are in both point lists. -/
-def SharedEdgePixelsInBoth : Prop := ∀ (t1 t2 : Triangle) (u v w1 w2 p : Pt),
-  (⟨u, v, w1⟩ : Triangle) ∈ orders t1 → (⟨u, v, w2⟩ : Triangle) ∈ orders t2 →
-  p ∈ Line.points (sortedLine u v) → p ∈ t1.points ∧ p ∈ t2.points
 
 /-- [V] A one-pixel outline consists of its three edge lines (as the code orients them: the edges
 of the `sorted_clockwise` triangle, each from its second-next to its next vertex). -/
